@@ -446,6 +446,145 @@ fn replace_word(s: &str, from: &str, to: &str) -> String {
     out
 }
 
+
+// ------------------------------------------------------------------ templates
+
+/// Hand-written shapes, randomly parametrised, each built so that some hash
+/// container inside the compiler holds two or more candidates whose order can
+/// reach the output.
+pub fn tpl_program(r: &mut Rng) -> String {
+    let t = r.pick(TABLES).to_string();
+    let u = r.pick(TABLES).to_string();
+    let mut cs: Vec<&str> = COLS.to_vec();
+    r.shuffle(&mut cs);
+    let (c1, c2, c3, c4) = (cs[0], cs[1], cs[2], cs[3]);
+    let n = r.range(2, 9);
+    match r.below(16) {
+        // a sorted CTE referenced twice or three times (sort column not in its select)
+        0 => {
+            let third = if r.below(2) == 0 {
+                format!(" | join c = srt (=={c2})")
+            } else {
+                String::new()
+            };
+            let sel = if r.below(2) == 0 {
+                format!("select {{a.{c3}, s2 = b.{c3}}}")
+            } else {
+                format!("select {{b.{c3}, a.{c2}}}")
+            };
+            let inner_take = if r.below(3) == 0 { format!(" | take {n}") } else { String::new() };
+            format!("let srt = (from {t} | sort {{{c1}, -{c4}}}{inner_take} | select {{{c2}, {c3}}})\nfrom a = srt | join b = srt (=={c2}){third} | {sel}\n")
+        }
+        // the same CTE used by the main pipeline and by another CTE
+        1 => format!(
+            "let base = (from {t} | sort {c1} | select {{{c2}, {c3}}})\nlet top = (from base | take {n})\nfrom a = base | join side:left b = top (=={c2}) | select {{a.{c3}, t2 = b.{c3}}}\n"
+        ),
+        // several aliases of one column, then a sort that must pick one of them
+        2 => {
+            let keep = match r.below(3) {
+                0 => "{p, q}",
+                1 => "{q}",
+                _ => "{q, p, w}",
+            };
+            format!("from {t} | sort {c1} | derive {{p = {c1}, q = {c1}, w = {c1}}} | select {keep} | take {n}\n")
+        }
+        // join chain of tables sharing column names, wildcard expansion
+        3 => format!(
+            "from {t} | derive s = 1 | join l = [{{q = 1, {c2} = 2}}] ({c1} == l.q) | join j = [{{k = 1, {c2} = 3}}] ({c3} == j.k) | select this\n"
+        ),
+        // clashing names at a pipeline split
+        4 => format!(
+            "from a = {t} | join b = {u} (=={c1}) | select {{a.{c1}, a.{c2}, b.{c1}, b.{c2}, a.{c3}, b.{c3}}} | take {n} | filter {c3} > 1\n"
+        ),
+        // self join of a let table with clashing names, then split
+        5 => format!(
+            "let lt = (from {t} | select {{{c1}, {c2}, {c3}}})\nfrom a = lt | join b = lt (=={c1}) | select {{a.{c1}, a.{c2}, b.{c1}, b.{c2}}} | take {n} | sort {{-a.{c2}}} | join c = lt (a.{c1} == c.{c1})\n"
+        ),
+        // named arguments, several orders
+        6 => {
+            let mut args = vec!["a:1", "b:2", "c:3", "d:4"];
+            r.shuffle(&mut args);
+            let k = r.range(2, 4);
+            format!(
+                "let f = func a:4 b:5 c:6 d:7 z -> z + a + b + c + d\nfrom {t} | derive fz = (f {} {c1}) | window rows:-{n}..0 (sort {c2} | derive rs = sum {c3})\n",
+                args[..k].join(" ")
+            )
+        }
+        // group with several sorts across splits
+        7 => format!(
+            "from {t} | sort {c1} | group {c2} (sort {{-{c3}}} | take 1) | sort {{{c4}, -{c1}}} | take {n} | derive {{m1 = {c1}, m2 = {c1}}} | select {{m2, m1, {c2}}}\n"
+        ),
+        // append / remove / intersect with wildcards and exclusions
+        8 => {
+            let op = *r.pick(&["append", "remove", "intersect"]);
+            format!(
+                "let l = (from {t} | select !{{{c1}, {c2}}})\nlet m = (from {u} | select !{{{c2}, {c3}}})\nfrom l | {op} m | {op} l | take {n}\n"
+            )
+        }
+        // JSON relation literal with many keys
+        9 => format!(
+            "from_text format:json '[{{\"{c1}\": 1, \"{c2}\": 2, \"{c3}\": 3, \"{c4}\": 4, \"zz\": 5}}, {{\"{c1}\": 6, \"{c2}\": 7, \"{c3}\": 8, \"{c4}\": 9, \"zz\": 0}}]'\nselect {{{c4}, {c1}, zz}} | filter nope_{n} > 1\n"
+        ),
+        // several interpolations, s-string table
+        10 => format!(
+            "from s\"SELECT * FROM {t} WHERE x > {{{n}}}\" | derive {{i1 = s\"CONCAT({{{c1}}}, {{{c2}}}, {{{c3}}})\", i2 = f\"{{{c1}}}-{{{c2}}}-{{{c3}}}\"}} | sort i1 | select {{i2, i1}}\n"
+        ),
+        // ambiguous / unknown names with many candidates
+        11 => format!(
+            "from a = {t} | join b = {u} (=={c1}) | join c = {t} (a.{c1} == c.{c1}) | derive {{{c2} = a.{c2}, {c3} = b.{c3}}} | select {{{c2}, {c3}, {c4}, {c1}}}\n"
+        ),
+        // modules and functions
+        12 => format!(
+            "module mm {{\n  let k = {n}\n  let fa = func by:1 other:2 x -> x + by + other\n  let ta = (from {t} | select {{{c1}, {c2}}})\n  module inner {{ let tb = (from {u} | sort {c3} | select {{{c1}}}) }}\n}}\nfrom mm.ta | join i = mm.inner.tb (=={c1}) | derive y = (mm.fa other:mm.k by:3 {c2})\n"
+        ),
+        // loop
+        13 => format!(
+            "from [{{n = 1, {c1} = 2}}] | loop (filter n < {n} | select {{n = n + 1, {c1} = {c1} * 2}}) | sort {{-n}} | derive {{d1 = n, d2 = n}} | select {{d2, d1}}\n"
+        ),
+        // two errors in one source
+        14 => format!("from {t} | select {{{c1}, }} | filter ( | derive = 3\nfrom {u} | select {{nope + }}\n"),
+        // window functions with the same sort in two partitions
+        _ => format!(
+            "from {t} | group {{{c1}, {c2}}} (sort {c3} | derive {{rk = rank {c3}, rn = row_number this, lg = lag 1 {c4}}}) | sort {{{c1}, rk}} | select {{{c1}, rk, rn, lg}} | take {n}\n"
+        ),
+    }
+}
+
+/// A near-duplicate of a program: same length, same beginning and end, one
+/// small edit in between (what an editor re-compiling a buffer produces).
+pub fn variant_of(src: &str, r: &mut Rng) -> String {
+    let b: Vec<char> = src.chars().collect();
+    if b.len() < 24 {
+        return src.to_string();
+    }
+    let lo = 9;
+    let hi = b.len() - 9;
+    // candidates: digits, and single-letter identifiers surrounded by non-word characters
+    let mut cand = Vec::new();
+    for i in lo..hi {
+        let c = b[i];
+        let word = |x: char| x.is_alphanumeric() || x == '_';
+        if c.is_ascii_digit() && !word(b[i - 1]) && !word(b[i + 1]) {
+            cand.push(i);
+        } else if "abcxy".contains(c) && !word(b[i - 1]) && !word(b[i + 1]) && b[i - 1] != '\'' && b[i - 1] != '"' {
+            cand.push(i);
+        }
+    }
+    if cand.is_empty() {
+        return src.to_string();
+    }
+    let i = cand[r.below(cand.len())];
+    let mut out = b.clone();
+    out[i] = if b[i].is_ascii_digit() {
+        let d = b[i].to_digit(10).unwrap();
+        char::from_digit((d + 1 + r.below(8) as u32) % 10, 10).unwrap()
+    } else {
+        let alts: Vec<char> = "abcxy".chars().filter(|x| *x != b[i]).collect();
+        alts[r.below(alts.len())]
+    };
+    out.into_iter().collect()
+}
+
 // ------------------------------------------------------------------ projects
 
 pub struct Project {
@@ -546,9 +685,10 @@ const DIALECT_SENSITIVE: &[&str] = &[
 
 impl<'a> Gen<'a> {
     pub fn program(&self, r: &mut Rng) -> String {
-        match r.below(10) {
+        match r.below(12) {
             0..=3 => r.pick(&self.corpus.programs).clone(),
-            4..=7 => gen_program(r, self.corpus),
+            4..=6 => gen_program(r, self.corpus),
+            7..=9 => tpl_program(r),
             _ => splice_program(r, self.corpus),
         }
     }
@@ -559,7 +699,14 @@ impl<'a> Gen<'a> {
         } else {
             self.program(r)
         };
-        match r.below(20) {
+        if r.below(20) == 0 {
+            return self.project_op(r, None);
+        }
+        self.op_for_src(r, src, dialect_sensitive)
+    }
+
+    pub fn op_for_src(&self, r: &mut Rng, src: String, dialect_sensitive: bool) -> Op {
+        match r.below(19) {
             0..=8 => Op::Compile {
                 src,
                 opts: pick_opts(r, dialect_sensitive),
@@ -574,9 +721,30 @@ impl<'a> Gen<'a> {
             },
             13..=15 => Op::Fmt { src },
             16..=17 => Op::Rq { src },
-            18 => Op::Tokens { src },
-            _ => self.project_op(r, None),
+            _ => Op::Tokens { src },
         }
+    }
+
+    /// The next call of a history: with some probability a near-duplicate of the
+    /// previous program (an editor re-compiling a buffer), through the same or
+    /// another entry point; otherwise a fresh operation.
+    pub fn next_op(&self, r: &mut Rng, prev: Option<&Op>, dialect_sensitive: bool) -> Op {
+        if let Some(p) = prev {
+            if let Some(psrc) = p.src() {
+                if r.below(4) == 0 {
+                    let v = variant_of(psrc, r);
+                    if r.below(2) == 0 {
+                        let mut o = p.clone();
+                        if let Some(s) = o.src_mut() {
+                            *s = v;
+                        }
+                        return o;
+                    }
+                    return self.op_for_src(r, v, dialect_sensitive);
+                }
+            }
+        }
+        self.single_op(r, dialect_sensitive)
     }
 
     pub fn project_op(&self, r: &mut Rng, dialect: Option<&str>) -> Op {
@@ -690,9 +858,11 @@ impl<'a> Gen<'a> {
             if session_here {
                 session_thread_used = true;
             }
+            let mut prev: Option<Op> = None;
             for _ in 0..ncalls {
                 let ds = r.below(3) == 0;
-                let mut c = Call::plain(self.single_op(&mut r, ds));
+                let mut c = Call::plain(self.next_op(&mut r, prev.as_ref(), ds));
+                prev = Some(c.op.clone());
                 if fault_panic_real && r.below(5) == 0 {
                     c.op = Op::Compile {
                         src: r.pick(panickers).clone(),
@@ -762,8 +932,10 @@ impl<'a> Gen<'a> {
         for t in 0..nthreads {
             let ncalls = r.range(1, 4);
             let mut calls = Vec::new();
+            let mut prev: Option<Op> = None;
             for _ in 0..ncalls {
-                let mut c = Call::plain(self.single_op(&mut r, true));
+                let mut c = Call::plain(self.next_op(&mut r, prev.as_ref(), true));
+                prev = Some(c.op.clone());
                 if fault_panic_real && r.below(6) == 0 {
                     c.op = Op::Compile {
                         src: r.pick(panickers).clone(),
